@@ -3,6 +3,7 @@ C13 — pin radial temperatures are ordered and obey radial heat conduction.
 Theorems about `Dassh.Model.Pin` over any ordered field; the conductivities are arbitrary
 positive numbers (whatever the temperature-dependent iteration ended with).
 -/
+import Dassh.Gen.C13Clad
 import Dassh.Model.Pin
 import Mathlib.Algebra.Order.Field.Basic
 import Mathlib.Tactic.Linarith
